@@ -44,11 +44,23 @@ def multi_node_inv(rng, fail=0.0):
             node_name = '.'.join(path)[:-4] if style == 'composed' else node_names[i]
         if rng.random() < fail:
             failing.add(node_name)
-            if rng.random() < 0.5:
+            r = rng.random()
+            if r < 0.4:
                 cl.append('no.such.class')
-            else:
+            elif r < 0.75:
                 params.append((S('loop'), S('${loop}')))
+            else:
+                params.append((S('bad'), S(rng.choice(['${unclosed', 'x-${a:${b}', '${}']))))     # a reference that does not parse
         inv.nodes[path] = G.doc(cl, apps, ('m', params))
+        if node_name in failing and rng.random() < 0.4:
+            # the node's own file cannot be loaded: wrong shape of a field, not a mapping, or no YAML at all
+            inv.nodes[path] = rng.choice([
+                ('m', [(S('classes'), S('sel')), (S('parameters'), ('m', params))]),
+                ('m', [(S('classes'), ('l', [S('sel')])), (S('applications'), S('web'))]),
+                ('m', [(S('parameters'), ('l', [I(1)]))]),
+                ('l', [S('sel')]),
+                ('raw', 'classes: [sel'),
+                ('raw', 'parameters:\n  a: {b\n')])
     return inv, failing
 
 
@@ -121,7 +133,7 @@ def run(tier, rng, C):
                               'model': C.describe(mobs.get(c['id'], ''))[:400], 'impl': C.describe(o)[:400], 'size': len(c['line'])})
         return fails
     rule = ('%d inventories with 2-10 nodes over shared class graphs, overlapping class/application sets with negations, application names that are also class names of the same node, nodes without classes, one third '
-            'with a random subset of failing nodes (missing class, reference loop); full render through the index accessor hook; '
+            'with a random subset of failing nodes (missing class, reference loop, malformed reference, a node file that cannot be loaded: wrong field shape, not a mapping, invalid YAML); full render through the index accessor hook; '
             'oracle: indexes = sorted exact inverse of the implementation\'s own per-node lists, nodes = discovered nodes, fails iff '
             'some node fails and names one; non-trivial = all (>= 2 nodes)' % n)
     return C.standard_run(cases, rule, key_fn=lambda c, m, i, r: 'model-impl-differ', extra_oracle=oracle)
